@@ -241,7 +241,6 @@ def r2_stages(ctx, lib):
 
 
 EXC_R3 = [
-    (r'^config::GroupConfig::input_paths\w*::\{closure#0\}$', r'unwrap$', 'decoding of a line read from stdin: an invalid stdin is a usage error, reported by the panic handler'),
     (r'^file::FileHash::u128_prefix$', r'expect$', 'in-memory buffer'),
     (r'^<file::FileHash as std::convert::From<u128>>::from$', r'unwrap$', 'in-memory buffer'),
 ]
